@@ -26,6 +26,15 @@ def campaign(tier, seed):
         cfg = st.path("MC_Iter.cfg")
         open(cfg, "w").write("SPECIFICATION Spec\nCONSTANTS MaxFuncs = %d\n MaxInstr = %d\n MaxMods = %d\n"
                              "INVARIANTS VisitComplete VisitOrdered EndFlags EmitCase\nCHECK_DEADLOCK FALSE\n" % (mf, mi, mm))
+        # design level: the Impl-shaped sub-iterators (IterImpl.tla, current code) refine the Ideal visiting order on
+        # every module shape x skip set; the former code's failures are ASSUME witnesses in that module
+        icfg = st.path("MC_IterImpl.cfg")
+        open(icfg, "w").write("SPECIFICATION Spec\nCONSTANTS MaxFuncs = %d\n MaxInstr = %d\nINVARIANTS Refines ResetOk\nCHECK_DEADLOCK FALSE\n" % (mf, mi))
+        iout = st.path("iterimpl.out")
+        im = run_tlc("MC_IterImpl", icfg, iout, workers=8, timeout=6000)
+        if not im["ok"]:
+            raise ToolError("MC_IterImpl: the transcribed sub-iterators do not refine the Ideal: %s" % im["error"])
+        os.remove(iout)
         mc_out = st.path("mc.out")
         mc = run_tlc("MC_Iter", cfg, mc_out, workers=8, timeout=6000)
         if not mc["ok"]:
@@ -60,7 +69,7 @@ def campaign(tier, seed):
                 rel["C25" if c["kind"] == "module" else "C26"] += 1
                 if i in (3, n // 2, n - 2):
                     samples.append(c)
-        res = {"records": recs, "states": mc["distinct"] + tv["distinct"], "transitions": mc["generated"] + tv["generated"],
+        res = {"records": recs, "states": mc["distinct"] + tv["distinct"] + im["distinct"], "transitions": mc["generated"] + tv["generated"],
                "traces": hstat["cases"] - hstat["skipped"], "samples": samples, "relevant": rel,
                "detail": {"model_checking": {"MaxFuncs": mf, "MaxInstr": mi, "MaxMods": mm, "cases": n,
                                              "invariants": ["VisitComplete", "VisitOrdered", "EndFlags"]}},
